@@ -660,6 +660,10 @@ func checkNewline(p *Prog, ru *Rule, fr, fd *ssa.Function) {
 					app = c
 				}
 			}
+			/* append(b, newline...) / append(b, "\n"...) */
+			if 2 == len(c.Common().Args) && 0 == len(variadicElems(c.Common())) && isNewlineValue(c.Common().Args[1]) {
+				app = c
+			}
 		}
 	})
 	c := fnName(fr)
@@ -867,6 +871,12 @@ func setCandidates(fd *ssa.Function, glob *ssa.Call) *nameSet {
 // holding '\n'.
 func isNewlineValue(v ssa.Value) bool {
 	v = stripConv(v, true)
+	/* A package-level "newline" made once. */
+	if nil != theProg {
+		if once := theProg.globalOnce(v); nil != once {
+			v = stripConv(once, true)
+		}
+	}
 	if s, ok := constString(v); ok {
 		return "\n" == s
 	}
